@@ -73,6 +73,9 @@ class Artefact:
         for o in sg.outputs:
             d.setdefault(o, [-1, INF])
             d[o][1] = INF
+        for i, T in enumerate(sg.tensors):
+            if getattr(T, "is_variable", False) and T.data is None and i in d:
+                d[i] = [-1, INF]  # persistent state: keeps its value from one inference to the next, so its bytes are its own for the whole inference
         return {k: tuple(v) for k, v in d.items()}
 
     def events(self, n):
